@@ -66,15 +66,12 @@ class SimpleCookieJar:
             if host.endswith(domain) or host == domain[1:]:
                 cookies.append(self.jar.get(domain))
 
+        # sorted by cookie name ("a" before "a1"), not by the rendered "name=value" text
         return "; ".join(
-            filter(
-                None,
-                sorted(
-                    [
-                        f"{k}={v.value}"
-                        for cookie in filter(None, cookies)
-                        for k, v in cookie.items()
-                    ]
-                ),
+            f"{k}={value}"
+            for k, value in sorted(
+                (k, v.value)
+                for cookie in filter(None, cookies)
+                for k, v in cookie.items()
             )
         )
